@@ -101,6 +101,11 @@ class CalendarRule(PluginResultIterator):
 
         until = self._normalize_until(until)
 
+        if not isinstance(interval, int) or isinstance(interval, bool) or interval < 1:
+            raise exc.DataGenValueError(
+                f"`interval` should be a positive integer, not `{interval}`"
+            )
+
         freq = self._normalize_frequency(freq)
 
         if byweekday:
